@@ -380,13 +380,13 @@ class VQESolver:
             raise TypeError("operator must be a of string, FermionOperator or QubitOperator type.")
 
         if isinstance(operator, (str, FermionOperator)):
-            if (n_active_electrons is None or n_active_sos is None or spin is None) and self.qubit_mapping == "scbk":
-                if self.molecule:
-                    n_active_electrons = self.molecule.n_active_electrons
-                    n_active_sos = self.molecule.n_active_sos
-                    spin = self.molecule.active_spin
-                else:
-                    raise KeyError("Must supply n_active_electrons, n_active_sos, and spin with a FermionOperator and scbk mapping.")
+            if self.molecule:
+                # Active-space data of the molecule are the defaults for every mapping and ordering
+                n_active_electrons = self.molecule.n_active_electrons if n_active_electrons is None else n_active_electrons
+                n_active_sos = self.molecule.n_active_sos if n_active_sos is None else n_active_sos
+                spin = self.molecule.active_spin if spin is None else spin
+            elif (n_active_electrons is None or n_active_sos is None or spin is None) and self.qubit_mapping.lower() == "scbk":
+                raise KeyError("Must supply n_active_electrons, n_active_sos, and spin with a FermionOperator and scbk mapping.")
 
             self.qubit_hamiltonian = fermion_to_qubit_mapping(fermion_operator=exp_op,
                                                               mapping=self.qubit_mapping,
